@@ -120,3 +120,149 @@ harnesses! {
     #[kani::unwind(5)] c20_fold3 => fold3;
     #[kani::unwind(7)] c20_fold5 => fold5;
 }
+
+// ---------------------------------------------------------------------------------------------
+// The visitor that folds the hints during validation: `CacheControlCalculate`
+// (src/validation/visitors/cache_control.rs), composed with VisitorCons as in `check_rules`,
+// driven with one `enter_selection_set` per object type whose data the response contains.
+pub mod visitor {
+    use std::mem::ManuallyDrop;
+
+    use async_graphql::registry::{MetaType, Registry};
+    use async_graphql::verif_hooks::validation::drive_cache_control;
+    use async_graphql::CacheControl;
+
+    use crate::ast::{query_doc, sset};
+    use crate::vsrc::Src;
+
+    fn object(cc: CacheControl) -> MetaType {
+        MetaType::Object {
+            name: String::new(),
+            description: None,
+            fields: Default::default(),
+            cache_control: cc,
+            extends: false,
+            shareable: false,
+            resolvable: true,
+            inaccessible: false,
+            interface_object: false,
+            tags: Vec::new(),
+            keys: None,
+            visible: None,
+            is_subscription: false,
+            rust_typename: None,
+            directive_invocations: Vec::new(),
+            requires_scopes: Vec::new(),
+        }
+    }
+
+    /// For selections made only on object types the response policy equals exactly the
+    /// combination of the object types' hints, whatever their order: N object types with
+    /// solver-chosen hints (public: any bool; max_age: any i32 >= -1).
+    fn objects<S: Src, const N: usize>(s: &mut S) {
+        let mut any_private = false;
+        let mut any_nocache = false;
+        let mut min_pos: Option<i32> = None;
+        let mut hints = [CacheControl::default(); N];
+        let mut i = 0;
+        while i < N {
+            let p = CacheControl { public: s.bool(), max_age: s.i32() };
+            s.assume(p.max_age >= -1);
+            hints[i] = p;
+            any_private |= !p.public;
+            any_nocache |= p.max_age == -1;
+            if p.max_age > 0 {
+                min_pos = Some(match min_pos {
+                    Some(m) if m < p.max_age => m,
+                    _ => p.max_age,
+                });
+            }
+            i += 1;
+        }
+        let reg = ManuallyDrop::new(Registry::default());
+        let doc = ManuallyDrop::new(query_doc(Vec::new()));
+        let set = ManuallyDrop::new(sset(Vec::new()));
+        let t0 = ManuallyDrop::new(object(hints[0]));
+        let t1 = ManuallyDrop::new(object(hints[if N > 1 { 1 } else { 0 }]));
+        let t2 = ManuallyDrop::new(object(hints[if N > 2 { 2 } else { 0 }]));
+        let all: [&MetaType; 3] = [&t0, &t1, &t2];
+        let got = drive_cache_control(&reg, &doc, &set, &all[..N]);
+        cover!(any_nocache && any_private && N > 1 && hints[0].max_age == -1 && hints[0].public, "no-cache first, private later");
+        cover!(!any_nocache && min_pos.is_some(), "positive max-age");
+        assert!(got.public == !any_private, "response policy is private iff any object type is private");
+        let expect = if any_nocache { -1 } else { min_pos.unwrap_or(0) };
+        assert!(got.max_age == expect, "no-cache if any, else the minimum positive max-age");
+    }
+    pub fn objects2<S: Src>(s: &mut S) { objects::<S, 2>(s) }
+    pub fn objects3<S: Src>(s: &mut S) { objects::<S, 3>(s) }
+
+    harnesses! {
+        #[kani::unwind(5)] #[kani::stub(std::hash::RandomState::new, crate::stubs::rs_new)] c20_visitor_objects2 => objects2;
+        #[kani::unwind(5)] #[kani::stub(std::hash::RandomState::new, crate::stubs::rs_new)] c20_visitor_objects3 => objects3;
+    }
+}
+
+// ---------------------------------------------------------------------------------------------
+// Field-level measurement: the three measuring visitors over ONE field selected on a parent
+// object type that declares the field with a cache hint and its own complexity rule.
+// Used by C20 (field-level hint reaches the policy) and C10 (custom complexity rule applies,
+// with or without an alias on the selection).
+pub mod field {
+    use std::mem::ManuallyDrop;
+
+    use async_graphql::parser::types::{Field, VariableDefinition};
+    use async_graphql::registry::{MetaField, MetaType, Registry};
+    use async_graphql::verif_hooks::validation::drive_field_visitors;
+    use async_graphql::{CacheControl, Name, Positioned, ServerResult, VisitorContext};
+
+    use crate::ast::{p, query_doc, sset};
+    use crate::vsrc::Src;
+
+    fn rule(_: &VisitorContext<'_>, _: &[Positioned<VariableDefinition>], _: &Field, child: usize) -> ServerResult<usize> {
+        Ok(child + 41)
+    }
+
+    /// ALIAS: 0 = no alias, 1 = alias "x" (names no field), 2 = no alias and the field has NO
+    /// own complexity rule (control: default 1 + children).
+    fn field_measures<S: Src, const ALIAS: u8>(s: &mut S) {
+        let hint = CacheControl { public: s.bool(), max_age: s.i32() };
+        s.assume(hint.max_age >= -1);
+        let mut f = MetaField::new("f", "Int");
+        f.cache_control = hint;
+        if ALIAS != 2 {
+            f.compute_complexity = Some(rule);
+        }
+        let mut fields = async_graphql::indexmap::IndexMap::new();
+        fields.insert("f".to_string(), f);
+        let parent = ManuallyDrop::new(MetaType::Object {
+            name: String::new(), description: None, fields, cache_control: CacheControl::default(), extends: false,
+            shareable: false, resolvable: true, inaccessible: false, interface_object: false, tags: Vec::new(), keys: None,
+            visible: None, is_subscription: false, rust_typename: None, directive_invocations: Vec::new(), requires_scopes: Vec::new(),
+        });
+        let sel: ManuallyDrop<Positioned<Field>> = ManuallyDrop::new(p(Field {
+            alias: if ALIAS == 1 { Some(p(Name::new("x"))) } else { None },
+            name: p(Name::new("f")),
+            arguments: Vec::new(),
+            directives: Vec::new(),
+            selection_set: sset(Vec::new()),
+        }));
+        let reg = ManuallyDrop::new(Registry::default());
+        let doc = ManuallyDrop::new(query_doc(Vec::new()));
+        let (cc, complexity, depth, errors) = drive_field_visitors(&reg, &doc, &parent, &sel);
+        cover!(!hint.public && hint.max_age > 0, "private hint with a positive max-age");
+        cover!(hint.max_age == -1, "no-cache hint");
+        assert!(errors == 0, "no validation error");
+        assert!(cc == hint, "the field's cache hint is the response policy");
+        assert!(depth == 1, "one field: depth 1");
+        assert!(complexity == if ALIAS == 2 { 1 } else { 41 }, "the field's own complexity rule applies (alias or not)");
+    }
+    pub fn field_measures_plain<S: Src>(s: &mut S) { field_measures::<S, 0>(s) }
+    pub fn field_measures_alias<S: Src>(s: &mut S) { field_measures::<S, 1>(s) }
+    pub fn field_measures_norule<S: Src>(s: &mut S) { field_measures::<S, 2>(s) }
+
+    harnesses! {
+        #[kani::unwind(6)] #[kani::stub(std::fmt::format, crate::stubs::fmt_stub)] #[kani::stub(std::hash::RandomState::new, crate::stubs::rs_new)] c20_field_measures_plain => field_measures_plain;
+        #[kani::unwind(6)] #[kani::stub(std::fmt::format, crate::stubs::fmt_stub)] #[kani::stub(std::hash::RandomState::new, crate::stubs::rs_new)] c20_field_measures_alias => field_measures_alias;
+        #[kani::unwind(6)] #[kani::stub(std::fmt::format, crate::stubs::fmt_stub)] #[kani::stub(std::hash::RandomState::new, crate::stubs::rs_new)] c20_field_measures_norule => field_measures_norule;
+    }
+}
